@@ -452,6 +452,73 @@ func c19(args []string) {
 				return nil
 			}})
 	}
+	// ---- dependent globber: globs only after the whole dependency stream has passed
+	for _, n := range []int{1, 2, 6} {
+		for rep := 0; rep < c.Pick(2, 6); rep++ {
+			s := &spec.Spec{Name: "depglob", MaxTasks: 4, Sources: map[string]string{}}
+			var vals, want []string
+			for i := 0; i < n; i++ {
+				vals = append(vals, fmt.Sprintf("%d", i))
+				want = append(want, fmt.Sprintf("made/f_%d.txt", i))
+			}
+			mk := &spec.Proc{Name: "maker", Kind: spec.KCmd, Cmd: spec.BuildCmd("maker", nil, []spec.PortDecl{{Name: "out"}}, []string{"i"}, nil, map[string]string{"sleep": "25"}),
+				Outs: []*spec.Out{{Port: "out", Pattern: "made/f_{p:i}.txt"}}, Feeds: []*spec.Feed{{Port: "i", How: "int", Values: vals}}}
+			s.Procs = append(s.Procs, mk, &spec.Proc{Name: "GL", Kind: spec.KGlobber, Files: []string{"made/f_*.txt"}, DepIn: true}, &spec.Proc{Name: "R", Kind: spec.KRecorder})
+			s.Conns = append(s.Conns, &spec.Conn{From: "maker.out", To: "GL.in_dep"}, &spec.Conn{From: "GL.out", To: "R.in"})
+			s.MaxTasks = 1 + rep%2
+			w := want
+			jobs = append(jobs, &c19Job{name: "FileGlobberDependent", s: s, cfg: cfgOf(1 + rep%3), label: fmt.Sprintf("%d upstream files, max %d", n, s.MaxTasks),
+				oracle: func(res *run.Result, ti *mon.TraceIndex, exp *ref.Result) []mon.Problem {
+					if !eqList(recPaths(ti, "R"), w) {
+						return []mon.Problem{{Sig: "globber-emitted", Msg: fmt.Sprintf("dependent globber emitted %v, the upstream process made %v", recPaths(ti, "R"), w)}}
+					}
+					return nil
+				}})
+		}
+	}
+	// ---- splitter fed several files: parts in input order, file after file
+	for _, nf := range []int{2, 3} {
+		for per := 1; per <= 3; per++ {
+			s := &spec.Spec{Name: "multisplit", MaxTasks: 2, Sources: map[string]string{}}
+			src := &spec.Proc{Name: "S", Kind: spec.KFileSource}
+			var want []string
+			for f := 0; f < nf; f++ {
+				name := fmt.Sprintf("ms%d.txt", f)
+				nl := 2 + f + per
+				var sb strings.Builder
+				for l := 0; l < nl; l++ {
+					fmt.Fprintf(&sb, "%s line %d\n", name, l)
+				}
+				s.Sources[name] = sb.String()
+				src.Files = append(src.Files, name)
+				for k := 0; k <= nl/per; k++ {
+					want = append(want, fmt.Sprintf("%s.split_%d", name, k+1))
+				}
+			}
+			s.Procs = append(s.Procs, src, &spec.Proc{Name: "SP", Kind: spec.KSplitter, Lines: per}, &spec.Proc{Name: "R", Kind: spec.KRecorder})
+			s.Conns = append(s.Conns, &spec.Conn{From: "S.out", To: "SP.file"}, &spec.Conn{From: "SP.split_file", To: "R.in"})
+			w := want
+			srcs := s.Sources
+			jobs = append(jobs, &c19Job{name: "FileSplitter", s: s, cfg: cfgOf(1 + per%3), label: fmt.Sprintf("%d input files, %d lines per split", nf, per),
+				oracle: func(res *run.Result, ti *mon.TraceIndex, exp *ref.Result) []mon.Problem {
+					got := recPaths(ti, "R")
+					if !eqList(got, w) {
+						return []mon.Problem{{Sig: "splitter-emission-order", Msg: fmt.Sprintf("parts emitted as %v, expected %v (file after file, part after part)", got, w)}}
+					}
+					cat := map[string]string{}
+					for _, p := range got {
+						b, _ := os.ReadFile(filepath.Join(res.Wd, p))
+						cat[p[:strings.Index(p, ".split_")]] += string(b)
+					}
+					for f, content := range srcs {
+						if cat[f] != content {
+							return []mon.Problem{{Sig: "splitter-parts-do-not-concatenate-to-input", Msg: "parts of " + f + " do not concatenate back to it"}}
+						}
+					}
+					return nil
+				}})
+		}
+	}
 	run.Parallel(len(jobs), func(i int) {
 		j := jobs[i]
 		root := c.CaseDir()
@@ -488,5 +555,39 @@ func c19(args []string) {
 			c.Sample(map[string]interface{}{"component": j.name, "case": j.label, "cfg": j.cfg})
 		}
 	})
+	// ---- Concatenator history: a longer run followed by a shorter one in the same directory
+	for rep := 0; rep < c.Pick(2, 8); rep++ {
+		root := c.CaseDir()
+		mk := func(n int) (*spec.Spec, string) {
+			s := &spec.Spec{Name: "concathist", MaxTasks: 2, Sources: map[string]string{}}
+			src := &spec.Proc{Name: "S", Kind: spec.KFileSource}
+			want := ""
+			for i := 0; i < n; i++ {
+				f := fmt.Sprintf("h%d.txt", i)
+				src.Files = append(src.Files, f)
+				s.Sources[f] = fmt.Sprintf("history input %d with some length", i)
+				want += s.Sources[f] + "\n"
+			}
+			s.Procs = append(s.Procs, src, &spec.Proc{Name: "CC", Kind: spec.KConcat, OutPath: "hist/all.txt"})
+			s.Conns = append(s.Conns, &spec.Conn{From: "S.out", To: "CC.in"})
+			return s, want
+		}
+		var ps []mon.Problem
+		for step, n := range []int{5, 2 + rep%2, 4} {
+			s, want := mk(n)
+			res := execSpec(c, root, s, Cfg{Buf: 3, Procs: 2}, nil, step > 0, step)
+			b, _ := os.ReadFile(filepath.Join(res.Wd, "hist/all.txt"))
+			if res.Exit != 0 || string(b) != want {
+				ps = append(ps, mon.Problem{Sig: "concatenator-content:rerun-history", Msg: fmt.Sprintf("run %d (%d inputs, after runs with other input counts in the same directory): exit %d, output has %d bytes, the inputs give %d bytes", step+1, n, res.Exit, len(b), len(want))})
+			}
+		}
+		if len(ps) > 0 {
+			c.Violation(ps[0].Sig, strings.Join(mon.Summarize(ps, 3), "\n  "), map[string]interface{}{"history": "5 inputs, then 2-3, then 4, same directory"})
+		} else {
+			c.Nontrivial(fmt.Sprintf("Concatenator|history|%d", rep))
+			c.Count("cases_Concatenator_history", 1)
+		}
+		c.Drop(root)
+	}
 	c.Finish()
 }
